@@ -105,6 +105,142 @@ impl Scenario for ExchIdWrap {
     }
 }
 
+/// Real commissioning (PASE, CASE, Interaction Model) under loss that forces retransmissions of
+/// handshake messages, requests and responses: every datagram a node puts on the wire under one
+/// (session id, counter) is bit-identical to the first one - also Sigma2 / Sigma3, which are
+/// rebuilt (signed, encrypted under the handshake key with its fixed nonce) for every transmission.
+pub struct HandshakeRetransmissions;
+
+impl Scenario for HandshakeRetransmissions {
+    fn property(&self) -> &'static str {
+        "C15"
+    }
+    fn name(&self) -> &'static str {
+        "handshakes-under-loss"
+    }
+
+    fn run(&self, seed: u64) -> Outcome {
+        use crate::kernel::{SchedCfg, MS, SEC};
+        use crate::net::TapEvent;
+        use crate::worlds::full::CtlStep;
+        use crate::worlds::full_drive::{drive_full, CtlSpec, FullCfg, UniformNet};
+        use std::collections::BTreeMap;
+
+        let mut a_script = vec![CtlStep::Commission { dev: 0 }];
+        for _ in 0..1 + tape::choose(3) {
+            a_script.push(CtlStep::ReadOnOff { dev: 0 });
+        }
+        a_script.push(CtlStep::Toggle { dev: 0 });
+        a_script.push(CtlStep::OpenWindow { dev: 0, secs: 300 });
+        a_script.push(CtlStep::Sleep { ms: 20_000 });
+        a_script.push(CtlStep::ReadOnOff { dev: 0 });
+        let b_script = vec![
+            CtlStep::Sleep { ms: 12_000 + tape::choose(8) * 1_000 },
+            CtlStep::Commission { dev: 0 },
+            CtlStep::ReadOnOff { dev: 0 },
+            CtlStep::Sleep { ms: 15_000 },
+            CtlStep::ReadOnOff { dev: 0 },
+        ];
+        // A device restart forces both controllers through CASE again (resumption first)
+        let crashes = if tape::chance(400) { vec![(25_000 + tape::choose(20) as u64 * 500) * MS] } else { vec![] };
+        let cfg = FullCfg {
+            n_devices: 1,
+            controllers: vec![
+                CtlSpec { fabric_id: 1, node_id: 0x1000, script: a_script, continue_on_error: true },
+                CtlSpec { fabric_id: 2, node_id: 0x2000, script: b_script, continue_on_error: true },
+            ],
+            handlers: 3,
+            net: UniformNet {
+                latency_us: 500 + tape::choose(4) as u64 * 500,
+                jitter_us: [0, 2000][tape::choose(2) as usize],
+                drop_permille: [50, 120, 200, 300][tape::choose(4) as usize],
+                dup_permille: [0, 50][tape::choose(2) as usize],
+                hold_permille: [0, 50, 150][tape::choose(3) as usize],
+                hold_max_ms: [50, 600][tape::choose(2) as usize],
+                ..Default::default()
+            },
+            sched: SchedCfg {
+                nonfifo_permille: [0, 100, 300][tape::choose(3) as usize],
+                max_polls: 4_000_000,
+                max_time: 2_000 * SEC,
+                ..Default::default()
+            },
+            limit_us: 600 * SEC,
+            kv_faults: vec![],
+            crashes,
+            restart_after_us: 300 * MS,
+            cancels: vec![],
+            calm_at_us: None,
+        };
+        let run = drive_full(seed, cfg);
+        let mut out = Outcome::default();
+        for (k, v) in &run.fired {
+            out.count(&format!("fault_{k}"), *v);
+        }
+        out.count("net_sent", run.net.sent);
+        out.count("net_dropped", run.net.dropped);
+        out.count("device_restarts", (run.device_incarnations - 1) as u64);
+        out.sim_time_us = run.end_time;
+
+        // (sender, incarnation, destination, session id, counter, source node id, exchange) -> first
+        // datagram. Unsecured messages are told apart by their exchange as well: status reports
+        // sent outside of any session (SessionNotFound, Busy) all carry the same counter, and
+        // nothing is encrypted there.
+        let mut groups: BTreeMap<(usize, u32, String, u16, u32, Option<u64>, Option<(u16, bool)>), (u64, Vec<u8>)> = BTreeMap::new();
+        let mut retransmitted_handshake = 0u64;
+        for e in &run.tap {
+            let TapEvent::Send(s) = e else {
+                continue;
+            };
+            if s.src_incarnation == 0 {
+                continue;
+            }
+            let Some(plain) = crate::wire::decode_plain(&s.bytes) else {
+                continue;
+            };
+            let proto = if plain.sess_id == 0 { crate::wire::decode_proto(&s.bytes, &plain, None, 0) } else { None };
+            let exch = proto.as_ref().map(|p| (p.exch_id, p.exch_flags & 1 != 0));
+            let key = (s.src, s.src_incarnation, format!("{:?}", s.dst), plain.sess_id, plain.ctr, plain.src, exch);
+            match groups.get(&key) {
+                None => {
+                    groups.insert(key, (s.time, s.bytes.clone()));
+                }
+                Some((t0, first)) => {
+                    out.count("c15_retransmissions_on_the_wire", 1);
+                    if let Some(p) = &proto {
+                        if p.proto_id == 0 && matches!(p.opcode, 0x20..=0x24 | 0x30..=0x33) {
+                            retransmitted_handshake += 1;
+                            if matches!(p.opcode, 0x31 | 0x32) {
+                                out.count("probe_sigma2_or_sigma3_retransmitted", 1);
+                            }
+                        }
+                    }
+                    if *first != s.bytes {
+                        let what = match &proto {
+                            Some(p) => format!("unsecured, protocol {:#x} opcode {:#x}", p.proto_id, p.opcode),
+                            None => format!("session id {}", plain.sess_id),
+                        };
+                        let diff = first.iter().zip(s.bytes.iter()).position(|(a, b)| a != b);
+                        out.violate(
+                            "C15-retransmission-not-identical",
+                            format!(
+                                "node {} ({what}) counter {:#x}: the datagram sent at t={} differs from the one sent at t={t0} under the same counter ({} vs {} bytes, first difference at offset {:?})",
+                                s.src, plain.ctr, s.time, s.bytes.len(), first.len(), diff
+                            ),
+                        );
+                        break;
+                    }
+                }
+            }
+        }
+        out.count("c15_handshake_retransmissions", retransmitted_handshake);
+        out.nontrivial = retransmitted_handshake > 0;
+        out.state_sigs.push(retransmitted_handshake.min(8));
+        out.sample = Some(json!({"handshake_retransmissions": retransmitted_handshake, "device_restarts": run.device_incarnations - 1}));
+        out
+    }
+}
+
 pub fn defs() -> Vec<PropertyDef> {
     vec![PropertyDef {
         id: "C15",
@@ -151,11 +287,16 @@ pub fn defs() -> Vec<PropertyDef> {
                 weight: 2,
                 fault_free: false,
             },
+            Family {
+                scenario: Box::new(HandshakeRetransmissions),
+                weight: 3,
+                fault_free: false,
+            },
         ],
-        rule: "tap families: mrp-world runs (see C09) under loss patterns forcing retransmissions, duplicates making the peer re-acknowledge while a retransmission is pending, applications sending twice in a row; every datagram on the wire is grouped by (sender incarnation, wire session id, counter, source node id, destination) and the groups must be bit-identical, new counters strictly increasing; snapshots: unique local session ids and exchange ids. wrap family: one allocation history of > 66 000 initiator exchanges with 1-3 long-lived exchanges kept open across the 16-bit wrap. distinct = distinct trace hash; non-trivial = a message was received and a fault or scheduling deviation fired (tap) / the id space wrapped (wrap)",
+        rule: "tap families: mrp-world runs (see C09) under loss patterns forcing retransmissions, duplicates making the peer re-acknowledge while a retransmission is pending, applications sending twice in a row; every datagram on the wire is grouped by (sender incarnation, wire session id, counter, source node id, destination) and the groups must be bit-identical, new counters strictly increasing; snapshots: unique local session ids and exchange ids. handshakes-under-loss: two real commissioners commission and operate one real device under loss / duplication / delay (a device restart in 40 % of the runs forces CASE again, with resumption), all datagrams of a node with the same session id and counter must be bit-identical (PASE, Sigma1/2/3, Sigma2Resume, IM requests and responses). wrap family: one allocation history of > 66 000 initiator exchanges with 1-3 long-lived exchanges kept open across the 16-bit wrap. distinct = distinct trace hash; non-trivial = a message was received and a fault or scheduling deviation fired (tap) / the id space wrapped (wrap)",
         assumptions: vec![
             "harness, tap decoder and oracles trusted",
-            "handshake traffic (Sigma2/3 retransmissions with randomised signatures) is covered by the same tap oracle in the CASE world, not in these families",
+            "handshake traffic (Sigma2/3 retransmissions, which rs-matter rebuilds and signs anew for every transmission) is covered by the family handshakes-under-loss: real PASE / CASE / IM between a device and two commissioners under 5-30 % loss, every datagram under one (session id, counter) compared bit for bit",
             "sampling, not enumeration",
         ],
         real: "rs-matter transport, sessions (message counters, exchange id allocation), exchanges, MRP (piggy-backed acknowledgements on retransmissions), AES-CCM",
